@@ -11,6 +11,8 @@ Spec == Init /\ [][Next]_l
 Cur == Trace[l - 1]
 InjectedIsExternal == l > 1 => (Cur.fired => Cur.cat = "external")
 OtherwiseNormal == l > 1 => (~Cur.fired => Cur.class = Cur.normal)
+\* C13: an enumeration that reports success has yielded every element (a failure while locating the next element is never swallowed)
+CompleteOrError == l > 1 => ((Cur.total > 0 /\ Cur.class = "ok") => Cur.got = Cur.total)
 TraceAccepted ==
   LET d == TLCGet("stats").diameter IN
   IF d - 1 = Len(Trace) THEN TRUE
